@@ -130,32 +130,64 @@ Definition cview (root : path) (colls : list path) (i : nat) (s : option node) :
 (** the collection exists and is a collection *)
 Definition view_ok (v : option node) : bool := is_dir v.
 
-(** ** A COPY as the sequence of its OS calls (fs_local.go Copy): the checks, RemoveAll
-    of the destination, then one Mkdir / copyRegularFile per entry of the Walk, in
-    Walk order; the first failure ends it with 500. *)
-Fixpoint copy_steps (ds : path) (stamp : N) (es : list (path * node)) (fin : response) : tprog act result response :=
+(** ** A COPY as the sequence of its OS calls (fs_local.go Copy, as repaired: through a
+    temporary name next to the destination): the checks; createTemp + Remove to reserve
+    the name; one Mkdir / copyRegularFile per entry of the Walk, in Walk order, at
+    [tmp ++ rel]; on a failure RemoveAll(tmp) and 500, the destination untouched; on
+    success RemoveAll(dst) if it existed, then Rename(tmp, dst) = read / remove / map.
+    [fail_at = Some k]: creating entry number [k] of the walk fails (a write error:
+    disk full, quota) — the fault the repair is about. *)
+Definition fail500 : response := err_resp {| ecode := 500; eleak := false |}.
+
+Definition copy_abort (tmpp : path) : tprog act result response :=
+  TCall (ARem tmpp) (fun _ => TRet fail500).
+
+Fixpoint copy_steps (tmpp : path) (stamp : N) (es : list (path * node)) (fail_at : option nat)
+                    (fin : tprog act result response) : tprog act result response :=
   match es with
-  | [] => TRet fin
+  | [] => fin
   | e :: r =>
-    TCall (ASet (ds ++ fst e) (copy_shallow stamp (snd e)))
-          (fun b => match b with
-                    | RDone true => copy_steps ds stamp r fin
-                    | _ => TRet (err_resp {| ecode := 500; eleak := false |})
-                    end)
+    match fail_at with
+    | Some O => copy_abort tmpp
+    | _ =>
+      TCall (ASet (tmpp ++ fst e) (copy_shallow stamp (snd e)))
+            (fun b => match b with
+                      | RDone true => copy_steps tmpp stamp r (option_map pred fail_at) fin
+                      | _ => copy_abort tmpp
+                      end)
+    end
   end.
 
-Definition copy_prog (c : path) (r : request) (dst : string) (recursive overwrite : bool) : tprog act result response :=
+Definition copy_finish (ds tmpp : path) (created : bool) : tprog act result response :=
+  let rename :=
+    TCall (AGet tmpp) (fun b =>
+      match b with
+      | RNode (Some t) =>
+        TCall (ARem tmpp) (fun _ => TCall (ASet ds t) (fun b2 =>
+          match b2 with RDone true => TRet (created_resp created) | _ => TRet fail500 end))
+      | _ => TRet fail500
+      end) in
+  if created then rename else TCall (ARem ds) (fun _ => rename).
+
+Definition copy_prog (c : path) (tmp : string) (fail_at : option nat)
+                     (r : request) (dst : string) (recursive overwrite : bool) : tprog act result response :=
   TCall (AChecks (rpath r) dst overwrite) (fun b =>
     match b with
     | RChecks (GOk (ss, n, ds, created)) =>
-      (* the destination the checks return lies below the client's collection
+      (* the destination the checks return lies strictly below the client's collection
          (ConcServeProofs.checks_below); the guard only makes that visible *)
       if nonempty_below c ds then
-        TCall (ARem ds) (fun _ =>
-          copy_steps ds (stamp r) (if recursive then walk n [] else [([], n)]) (created_resp created))
-      else TRet (err_resp {| ecode := 500; eleak := false |})
+        let tmpp := parent ds ++ [tmp] in
+        TCall (ASet tmpp (File "" (stamp r))) (fun b1 =>
+          match b1 with
+          | RDone true =>
+            TCall (ARem tmpp) (fun _ =>
+              copy_steps tmpp (stamp r) (walk_entries n recursive) fail_at (copy_finish ds tmpp created))
+          | _ => TRet fail500
+          end)
+      else TRet fail500
     | RChecks (GErr e) => TRet (err_resp e)
-    | _ => TRet (err_resp {| ecode := 500; eleak := false |})
+    | _ => TRet fail500
     end).
 
 (** ** LocalFileSystem.Create's upload section as OS calls (UploadSteps.v): createTemp,
